@@ -261,20 +261,20 @@ def _groupselect(ctx, rep):
                      norm(n.targets[0]) == inner.id]
             if len(binds) == 1:
                 inner = binds[0]
-        ok_inner = isinstance(inner, ast.Call) and norm(inner.func) == 'sort' and len(inner.args) >= 2 and \
-            norm(inner.args[0]) == 'table' and norm(inner.args[1]) == 'value' and \
-            any(k.arg == 'reverse' and norm(k.value) == rev for k in inner.keywords)
-        ok_key = len(c.args) >= 2 and norm(c.args[1]) == 'key'
-        pres = [k for k in c.keywords if k.arg == 'presorted']
-        from .c11 import _local_dict
-        for k in c.keywords:
-            if k.arg is None and isinstance(k.value, ast.Name):
-                d = _local_dict(fn, k.value.id)
-                if d is None:
-                    pres.append(k)           # an opaque spread may carry presorted
-                elif 'presorted' in d:
-                    pres.append(ast.keyword(arg='presorted', value=d['presorted']))
-        ok_pres = not pres or (isinstance(pres[0].value, ast.Constant) and pres[0].value.value is False)
+        from .c11 import _callee_fns, _passed
+
+        def arg(call, pname):
+            """text of the argument bound to parameter `pname` of the (resolved) callee, or None"""
+            for g, bound in _callee_fns(ctx, fn, call):
+                p = _passed(g, bound, call, pname, fn)
+                if p is not None and p[1] is not None:
+                    return norm(p[1])
+            return None
+        ok_inner = isinstance(inner, ast.Call) and norm(inner.func) == 'sort' and \
+            arg(inner, 'table') == 'table' and arg(inner, 'key') == 'value' and arg(inner, 'reverse') == rev
+        ok_key = arg(c, 'key') == 'key'
+        pv = arg(c, 'presorted')
+        ok_pres = pv in (None, 'False')
         if ok_inner and ok_key and ok_pres:
             rep.held('R9.5', fn, norm(c)[:70], 'value sort (reverse=%s), then key sort, then first per group' % rev, c)
         else:
